@@ -593,6 +593,9 @@ def main():
             undec.append((fq, "; ".join(sorted({f["message"] for f in msgs}))[:300]))
     for v in sec_viol:
         violations.append(v)
+    for srec in secondary:
+        if srec.get("counts_as_proof") and srec.get("status") == "undecided":
+            undec.append((srec["name"], "secondary back end did not reach a verdict: %s" % srec.get("log", "")[-200:]))
     unattributed = [f for f in foreign if not f["fn"]]
     if unattributed:
         undec.append(("-", "error diagnostics that could not be attributed to a function: %s" % "; ".join(sorted({f["message"] for f in unattributed}))[:300]))
